@@ -357,6 +357,9 @@ func (a *sa) OnPreRestart(ctx vivid.RestartContext) error {
 	} else {
 		a.sh.cur = [3]bool{true, true, true}
 	}
+	if !a.sh.cur[0] {
+		return fmt.Errorf("pre restart hook failed")
+	}
 	return nil
 }
 func (a *sa) OnRestarted(ctx vivid.RestartContext) error {
@@ -923,7 +926,7 @@ func (g *gen) spec(depth int, parent []uint64) *Spec {
 	}
 	nh := g.r.Intn(3)
 	for i := 0; i < nh; i++ {
-		sp.Hooks = append(sp.Hooks, [3]bool{true, !g.r.Chance(1, 4), !g.r.Chance(1, 4)})
+		sp.Hooks = append(sp.Hooks, [3]bool{!g.r.Chance(1, 3), !g.r.Chance(1, 4), !g.r.Chance(1, 4)})
 	}
 	return sp
 }
@@ -990,7 +993,7 @@ func (g *gen) supScenario() [][]Action {
 	hooks := func() [][3]bool {
 		var h [][3]bool
 		for i := 0; i < g.r.Intn(3); i++ {
-			h = append(h, [3]bool{true, !g.r.Chance(1, 3), !g.r.Chance(1, 3)})
+			h = append(h, [3]bool{!g.r.Chance(1, 3), !g.r.Chance(1, 3), !g.r.Chance(1, 3)})
 		}
 		return h
 	}
